@@ -398,6 +398,60 @@ pub fn judge_pass(rules: &[RuleAst], store: &Store, ctx: &mut Ctx) -> Verdict {
             }
         }
     }
+    // The SAME engine object (it has executed the first store) is then given another fact store: the facts as the
+    // first pass left them. What it does there must again be what REF does there - nothing about the first store may
+    // linger in the engine. (Only when REF defines that second pass completely.)
+    {
+        let store2 = m.clone();
+        let mut m2s = store2.clone();
+        let mut seq2: Vec<String> = Vec::new();
+        let mut defined = true;
+        'second: for r in &order {
+            match eval_cond(&r.cond, &m2s) {
+                T3::Undef(_) => {
+                    defined = false;
+                    break;
+                }
+                T3::False => {}
+                T3::True => {
+                    let mut t = m2s.clone();
+                    for a in &r.actions {
+                        match eval_term_rhs(&a.rhs, &t) {
+                            Ok(v) => t.write(&a.target, v),
+                            Err(_) => {
+                                defined = false;
+                                break 'second;
+                            }
+                        }
+                    }
+                    m2s = t;
+                    seq2.push(r.name.clone());
+                }
+            }
+        }
+        if defined && uni.iter().all(|p| m2s.read(p).is_ok()) {
+            let facts3 = store2.to_facts();
+            let mut got: Vec<String> = Vec::new();
+            match catch(|| engine.execute_with_callback(&facts3, |name, _| got.push(name.to_string()))) {
+                Err(p) => return Verdict::fail(format!("panic@{}", p.split(": ").next().unwrap_or("?")), p),
+                Ok(Err(e)) => return Verdict::fail("execute-error", format!("second store on the same engine: execute returned Err({}) on a case REF defines completely", e)),
+                Ok(Ok(_)) => {
+                    if got != seq2 {
+                        return Verdict::fail(
+                            "reused-engine:firing-sequence",
+                            format!("the engine that had executed the first store fired {:?} on a second store (the facts as the first pass left them); REF fires {:?} there", got, seq2),
+                        );
+                    }
+                    let fin3 = snapshot_engine(&facts3, &uni);
+                    let want3 = snapshot_model(&m2s, &uni);
+                    if fin3 != want3 {
+                        return Verdict::fail("reused-engine:final-store", format!("second store on the same engine: {}", first_diff(&uni, &fin3, &want3)));
+                    }
+                    ctx.label("second-store-on-the-same-engine-judged");
+                }
+            }
+        }
+    }
     if !m_seq.is_empty() {
         ctx.label("some-fired");
     }
